@@ -177,6 +177,8 @@ KNOWN_FUNCS = {
     "cauchy.display_start_point",
     "cauchy.get_cauchy_point",
     "linesearch.line_search",
+    "linesearch.line_search.dphi",
+    "linesearch.line_search.phi",
     "linesearch.max_allowed_steplength",
     "main.GradientFunction.__call__",
     "main.ObjectiveFunction.__call__",
@@ -185,6 +187,10 @@ KNOWN_FUNCS = {
     "main.is_f0_target_reached",
     "main.minimize_lbfgsb",
     "scalar_function.ScalarFunction.__init__",
+    "scalar_function.ScalarFunction.__init__.fun_wrapped",
+    "scalar_function.ScalarFunction.__init__.grad_wrapped",
+    "scalar_function.ScalarFunction.__init__.update_fun",
+    "scalar_function.ScalarFunction.__init__.update_grad",
     "scalar_function.ScalarFunction._update_fun",
     "scalar_function.ScalarFunction._update_grad",
     "scalar_function.ScalarFunction.fun",
